@@ -22,7 +22,7 @@ VERIF = os.path.dirname(os.path.dirname(os.path.dirname(os.path.abspath(__file__
 CACHE = os.path.join(VERIF, ".cache")
 SYNFACTS_BIN = os.path.join(CACHE, "synfacts-target", "release", "synfacts")
 DRIVER_BIN = os.path.join(CACHE, "driver-target", "release", "prql-facts")
-TARGET_NIGHTLY = os.path.join(CACHE, "target-nightly")
+TARGET_NIGHTLY = os.environ.get("VERIF_TARGET") or os.path.join(CACHE, "target-nightly")   # VERIF_TARGET: the parallel self-test gives every worker its own target dir
 
 CRATES = {
     "prqlc": "prqlc/prqlc/src/lib.rs",
@@ -134,7 +134,7 @@ def _prune_old(keep):
         (os.path.join(base, e) for e in os.listdir(base)),
         key=lambda p: os.path.getmtime(p),
     )
-    for p in ents[:-6]:
+    for p in ents[:-(48 if os.environ.get("VERIF_SELFTEST") else 6)]:
         if p != keep:
             shutil.rmtree(p, ignore_errors=True)
 
@@ -175,7 +175,7 @@ def mir_facts(log=sys.stderr, features=None):
     tag = "mir" if not features else "mir-" + hashlib.sha1(" ".join(features).encode()).hexdigest()[:8]
     outdir = os.path.join(d, tag)
     done = os.path.join(outdir, "DONE")
-    with _Lock("mir"):
+    with _Lock("mir" if not os.environ.get("VERIF_TARGET") else "mir-" + hashlib.sha1(TARGET_NIGHTLY.encode()).hexdigest()[:8]):
         if not os.path.exists(done):
             shutil.rmtree(outdir, ignore_errors=True)
             os.makedirs(outdir, exist_ok=True)
